@@ -141,3 +141,146 @@ V("C15", "keyword-ignores-kind", "fire", ("codelimit/common/token_matching/predi
 V("C15", "consume-renamed-silent", "silent", (PAT, "open_transitions", "still_open", 3), "local renamed")
 V("C15", "python-pattern-equiv-silent", "silent", (PYL, "[Keyword(\"def\"), Name(), OneOrMore(Balanced(\"(\", \")\"))]",
                                                    "[Keyword(\"def\"), Name(), OneOrMore([Balanced(\"(\", \")\")])]"), "list-wrapped operand")
+
+# ------------------------------------------------------------------ C13
+EXPR = "codelimit/common/gsm/Expression.py"
+OPD = "codelimit/common/gsm/operator/"
+MATCHER = "codelimit/common/gsm/matcher.py"
+PRD = "codelimit/common/token_matching/predicate/"
+EC_NEW = """    if result is None:
+        result = set()
+    if isinstance(states, State):
+        states = {states}
+    for state in states:
+        if state in result:
+            continue
+        result.add(state)
+        epsilon_closure(state.epsilon_transitions, result)
+    return result
+"""
+V("C13", "closure-unguarded", "fire", (EXPR, EC_NEW, """    result = set()
+    if isinstance(states, State):
+        states = {states}
+    for state in states:
+        result.add(state)
+        for s in state.epsilon_transitions:
+            result.update(epsilon_closure(s))
+    return result
+"""), "pre-fix: unbounded recursion on epsilon cycles", "epsilon_closure/recursion")
+V("C13", "closure-guard-not-threaded", "fire", (EXPR, "        epsilon_closure(state.epsilon_transitions, result)\n",
+                                               "        result.update(epsilon_closure(state.epsilon_transitions))\n"),
+  "visited set not passed down: each level starts empty", "epsilon_closure/recursion")
+V("C13", "closure-iterative-silent", "silent", (EXPR, EC_NEW, """    if result is None:
+        result = set()
+    if isinstance(states, State):
+        states = {states}
+    todo = list(states)
+    while todo:
+        state = todo.pop()
+        if state in result:
+            continue
+        result.add(state)
+        todo.extend(state.epsilon_transitions)
+    return result
+"""), "worklist form of the same closure")
+V("C13", "optional-no-bypass", "fire", (OPD + "Optional.py", "start.epsilon_transitions = [nfa.start, accepting]", "start.epsilon_transitions = [nfa.start]"),
+  "Optional(x) == x", "Optional.apply")
+V("C13", "oneormore-bypass", "fire", (OPD + "OneOrMore.py", "start.epsilon_transitions = [nfa.start]", "start.epsilon_transitions = [nfa.start, accepting]"),
+  "OneOrMore(x) == x*", "OneOrMore.apply")
+V("C13", "zeroormore-no-back-edge", "fire", (OPD + "ZeroOrMore.py", "nfa.accepting.epsilon_transitions = [nfa.start, accepting]", "nfa.accepting.epsilon_transitions = [accepting]"),
+  "ZeroOrMore(x) == x?", "ZeroOrMore.apply")
+V("C13", "concat-swapped", "fire", (OPD + "Concat.py", "        nfa2.accepting.assign(nfa1.start)\n        nfa = NFA(nfa2.start, nfa1.accepting)",
+                                    "        nfa1.accepting.assign(nfa2.start)\n        nfa = NFA(nfa1.start, nfa2.accepting)"),
+  "sequence reversed", "Concat.apply")
+V("C13", "union-drops-right", "fire", (OPD + "Union.py", "start.epsilon_transitions = [nfa1.start, nfa2.start]", "start.epsilon_transitions = [nfa1.start]"),
+  "Union(x, y) == x", "Union.apply")
+V("C13", "union-right-not-accepting", "fire", (OPD + "Union.py", "        nfa2.accepting.epsilon_transitions = [accepting]\n", ""),
+  "right alternative never accepts", "Union.apply")
+V("C13", "zeroormore-append-silent", "silent", (OPD + "ZeroOrMore.py", "        start.epsilon_transitions = [nfa.start, accepting]\n",
+                                                "        start.epsilon_transitions.append(accepting)\n        start.epsilon_transitions.append(nfa.start)\n"),
+  "same edges, built with append in another order")
+V("C13", "sequence-reversed", "fire", (EXPR, "    for item in op_expression:\n", "    for item in reversed(op_expression):\n"), "items applied right to left", "expression_to_nfa/sequence")
+V("C13", "keyword-hash-id", "fire", (PRD + "Keyword.py", "        return hash(self.keyword)", "        return hash(id(self))"),
+  "equal predicates hash differently: duplicate DFA symbols", "Keyword/hash")
+V("C13", "symbol-eq-any", "fire", (PRD + "Symbol.py", "        if not isinstance(other, Symbol):\n            return False\n        return self.symbol == other.symbol",
+                                   "        return getattr(other, 'symbol', None) == self.symbol"),
+  "Symbol('=') == Operator('='): distinct symbols merged", "Symbol/eq-own-class")
+V("C13", "balanced-hash-extra", "fire", (PRD + "Balanced.py", "        return hash((self.left, self.right, self.depth))", "        return hash((self.left, self.right, self.depth, self.satisfied))"),
+  "hash reads a field __eq__ ignores", "Balanced/hash-subset")
+V("C13", "dfa-start-no-closure", "fire", (EXPR, "stack = [(start, epsilon_closure(nfa.start))]", "stack = [(start, {nfa.start})]"),
+  "patterns starting with an operator never match", "start-closure")
+V("C13", "dfa-target-no-closure", "fire", (EXPR, "new_states = epsilon_closure(move(T, predicate))", "new_states = move(T, predicate)"),
+  "epsilon edges after a symbol are lost", "nfa_to_dfa/target")
+V("C13", "move-neq", "fire", (EXPR, "if transition[0] == symbol:", "if transition[0] != symbol:"), "move follows the wrong symbols", "move/selection")
+V("C13", "startswith-accept-before-consume", "fire", (MATCHER, """        next_state = pattern.consume(item)
+        if not next_state:
+            return None
+        if pattern.is_accepting():
+            pattern.end = len(pattern.tokens)
+            return pattern
+    return None
+""", """        if pattern.is_accepting():
+            pattern.end = len(pattern.tokens)
+            return pattern
+        next_state = pattern.consume(item)
+        if not next_state:
+            return None
+    return None
+"""), "accepting test before the item is consumed", "starts_with/shape")
+V("C13", "match-returns-prefix", "fire", (MATCHER, """        next_state = pattern.consume(item)
+        if not next_state:
+            return None
+    if pattern.is_accepting():
+        pattern.end = len(pattern.tokens)
+        return pattern
+""", """        next_state = pattern.consume(item)
+        if not next_state:
+            return None
+        if pattern.is_accepting():
+            pattern.end = len(pattern.tokens)
+            return pattern
+    if pattern.is_accepting():
+        pattern.end = len(pattern.tokens)
+        return pattern
+"""), "a matching prefix counts as a full match", "match/shape")
+
+# ------------------------------------------------------------------ C14
+SU = "codelimit/common/scope/scope_utils.py"
+DRAIN = """    for pattern in fs.active_patterns:
+        if fs.matches and pattern.start < fs.matches[-1].end:
+            continue
+        if pattern.is_accepting():
+"""
+V("C14", "drain-unguarded", "fire", (MATCHER, DRAIN, "    for pattern in fs.active_patterns:\n        if pattern.is_accepting():\n"),
+  "pre-fix: overlapping matches at end of input", "drain loop")
+V("C14", "main-guard-le", "fire", (MATCHER, "            if fs.matches and pattern.start < fs.matches[-1].end:\n                continue\n            if len(",
+                                  "            if fs.matches and pattern.start <= fs.matches[-1].end:\n                continue\n            if len("),
+  "adjacent matches dropped", "main loop")
+V("C14", "main-guard-removed", "fire", (MATCHER, "            if fs.matches and pattern.start < fs.matches[-1].end:\n                continue\n            if len(", "            if len("),
+  "overlapping matches in the main loop", "main loop")
+V("C14", "guard-positive-form-silent", "silent", (MATCHER, DRAIN, """    for pattern in fs.active_patterns:
+        if not fs.matches or pattern.start >= fs.matches[-1].end:
+          if pattern.is_accepting():
+""".replace("          if", "            if")), "same guard in positive form")
+VARIANTS[-1]["edits"] = [(MATCHER, DRAIN + "            pattern.end = len(sequence)\n            fs.matches.append(pattern)\n",
+                          "    for pattern in fs.active_patterns:\n        if not fs.matches or pattern.start >= fs.matches[-1].end:\n"
+                          "            if pattern.is_accepting():\n                pattern.end = len(sequence)\n                fs.matches.append(pattern)\n")]
+V("C14", "end-idx-plus1", "fire", (MATCHER, "            if len(pattern.state.transition) == 0 and pattern.is_accepting():\n                pattern.end = idx\n",
+                                   "            if len(pattern.state.transition) == 0 and pattern.is_accepting():\n                pattern.end = idx + 1\n"),
+  "end one past the exclusive end", "find_all/end#0")
+V("C14", "drain-end-minus1", "fire", (MATCHER, "pattern.end = len(sequence)\n", "pattern.end = len(sequence) - 1\n"), "last item cut off", "find_all/end#2")
+V("C14", "report-nonaccepting", "fire", (MATCHER, "            else:\n                if pattern.is_accepting():\n                    pattern.end = idx\n                    fs.matches.append(pattern)\n",
+                                         "            else:\n                pattern.end = idx\n                fs.matches.append(pattern)\n"),
+  "attempts that merely got stuck are reported", "accepting")
+V("C14", "report-early", "fire", (MATCHER, "            if len(pattern.state.transition) == 0 and pattern.is_accepting():", "            if pattern.is_accepting():"),
+  "shortest instead of longest match", "longest")
+V("C14", "balanced-ge0", "fire", (BAL, "            return self.depth > 0", "            return self.depth >= 0"), "accepts anything at depth 0", "Balanced.accept/table")
+V("C14", "balanced-no-decrement", "fire", (BAL, "            self.depth -= 1\n", "            self.depth -= 0\n"), "group never closes", "Balanced.accept/table")
+V("C14", "balanced-le0", "fire", (BAL, "            if self.depth < 0:\n                return False", "            if self.depth <= 0:\n                return False"),
+  "closing parenthesis of the outermost group rejected", "Balanced.accept/table")
+V("C14", "attempts-inserted-front", "fire", (MATCHER, "fs.active_patterns.append(Pattern(idx, dfa))", "fs.active_patterns.insert(0, Pattern(idx, dfa))"),
+  "later starts are tried first", "find_all")
+V("C14", "follow-from-end-plus1", "fire", (SU, "starts_with(followed_by, tokens[p.end:])", "starts_with(followed_by, tokens[p.end + 1:])"),
+  "follow-up pattern matched one token late", "follow-slice")
+V("C14", "header-range-start-start", "fire", (SU, "TokenRange(pattern.start, pattern.end)", "TokenRange(pattern.start, pattern.end - 1)"),
+  "header range loses its last token", "token-range")
